@@ -39,6 +39,8 @@ CLAUSE_TEXT = {
                        '(or wrong element count / packing)',
     'T_Match': 'members of a group issue different collective sequences on it',
     'T_Members': 'collective issued on a group the rank (or the root) is not a member of',
+    'T_InvSizes': 'second-order broadcast with an element count the configuration does not allow (e.g. dense transfer under symmetry-aware mode)',
+    'T_GradSizes': 'gradient broadcast with an unexpected element count',
     'HoldersOK': 'second-order data held by a rank that is not a gradient '
                  'worker (or missing on one that is)',
     'DesignOK': 'KfacDist derived protocol violates a clause (spec)',
@@ -157,7 +159,7 @@ def main(tier: str, seed: int) -> int:
         h = fam['hs'][(i // len(hists)) % len(fam['hs'])]
         kc = config_lattice.to_kaisa(c)
         kc.update(fam['hp'])
-        kc.update(model=['mlp3', 'mlp2'][i % 2], param_dtype='float64',
+        kc.update(model=['mlp3', 'mixb', 'mlp2'][i % 3], param_dtype='float64',
                   inv_dtype='float32')
         cases.append({'cfg': kc, 'h': h, 'seed': seed * 100 + i, 'i': i})
     outs = pmap(run_case, cases)
@@ -186,7 +188,10 @@ def main(tier: str, seed: int) -> int:
             if r.ok:
                 break
             # the violating state is the last state of the trace: ci = its index
-            k = len(r.trace)            # states 1..k, ci = k
+            k = max(1, len(r.trace))    # states 1..k, ci = k (a violation
+            # by the initial state prints no numbered state: k = 1)
+            if k > len(batch) - start:
+                raise RuntimeError('cannot locate the violating case')
             bad.append((start + k - 1, str(r.violated)))
             # other invariants of the same case
             for inv in invs:
